@@ -89,6 +89,11 @@ CLAIMED.update({
    technique="controlled scheduling + linearizability checking (porcupine) of recorded call/return histories, on a scratch copy of the repository whose env mutex operations are rewritten into scheduling points; plus the Go race detector under stress on the real package",
    text="(a) Configurations of 2-3 goroutines x 2-4 environment operations on a shared scope with a read-only parent: every schedule with at most 2 preemptions at lock-acquisition granularity is enumerated depth-first (configurations finished under the cap are counted as exhaustive within the bound), plus random schedules; each execution yields a history on the scheduler's logical clock, closed by a read of the final state, checked by porcupine against a sequential dictionary model; nothing enabled with goroutines unfinished = deadlock. (b) 8-32 goroutines x hundreds of mixed operations (all sixteen, incl. DeepCopy, NewModule, GetEnvFromPath, Addr) under -race at GOMAXPROCS 2 and 16; reports are collected from the race log and de-duplicated by the pair of innermost anko functions.",
    note="Trusted: the go/ast rewrite of sync.RWMutex/sync.Mutex in env/*.go (regenerated from the current tree on every run; no mutex found = the check fails to build, never passes), the simulated writer-preferring RW lock, porcupine. A missing lock leaves no scheduling point and is therefore the race phase's business, not the scheduler's."),
+ "C14": dict(
+   cat="exploration", ref="DESIGN.md section 3, C14",
+   technique="runtime structural + differential monitor: reflection dump of the shared parsed tree before/after every run, observation equality between a solo run and repeated/concurrent runs of one tree on fresh environments, canaries on process-global interpreter state, Go race detector on the concurrent phase",
+   text="Each program (27 feature programs aimed at per-node runtime data and import tables, generated programs of every profile, the repository's goroutine-free scripts) is parsed once; sequential phase: 3 runs in fresh equal environments with a dump comparison after each; concurrent phase in the race build: 8 goroutines run the one shared tree behind a barrier on 8 fresh environments and must each reproduce the solo run's value, error text and probe trace; after every case canaries check the shared ++ literal, the small-int cache, the package-table sizes and that a fresh environment's imports are pristine.",
+   note="Trusted: astx dump completeness (generic over struct fields, so added fields are seen). Skipped as outside repeatability: corpus scripts using import, goroutines, channels, map iteration, keys(), printing, time."),
  "C15": dict(
    cat="exploration", ref="DESIGN.md section 3, C15",
    technique="runtime monitor of parser.ParseSrc over generated, mutated and hand-built hostile inputs: panic capture, CPU/allocation budget per input (termination), error type and position range, determinism (sequential and concurrent under -race), and the compositional law on pairs of valid programs checked node by node with shifted positions",
